@@ -49,9 +49,12 @@ def specEnv (st : St) : Spec.Pending.Env :=
 
 def showBal (b : Balance) : String := s!"{b.total} {b.spendable} {b.wStaking} {b.wBinding}"
 
-/-- GetUtxo item -/
-def utxoItem (sync : Nat) (c : Coin) : String :=
-  s!"{c.tx}:{c.idx}:{c.cred.amt}:{c.blk.height}:{c.cred.maturity}:{(confs sync c.blk.height) % 2^32}@{c.cred.sh}"
+/-- GetUtxo item as compared by the harness; `MW.Props.C01.ledger_observed` is about exactly these records
+    (`Spec.Chain.obsM` for the model, `Spec.Chain.obsS` for the spec) -/
+def showObs (o : Spec.Chain.CoinObs) : String :=
+  s!"{o.tx}:{o.idx}:{o.amt}:{o.height}:{o.maturity}:{o.confs}@{o.addr}"
+
+def utxoItem (sync : Nat) (c : Coin) : String := showObs (Spec.Chain.obsM sync c)
 
 /-- wallet.GetAddresses merge logic for one issued address (see wallet.go): the standard listing holds
     every standard record (used if that record or the staking record of the same key is used) plus a
@@ -163,10 +166,7 @@ def step (st : St) (args : List String) : St × String :=
     if !st.wallets.contains w then (st, "err\terr") else
     let m := joinSorted ((coinsOf st.store w).map (utxoItem st.store.syncedTo))
     let tip := st.specChain.length - 1
-    let sp := joinSorted ((Spec.Chain.coinsOfWallet (Spec.Chain.ledgerOf st.own st.specChain) w).filterMap (fun c =>
-      if c.amt = 0 then none else
-      let mat := if c.cb then st.p.cbMaturity else c.cls.maturity
-      some s!"{c.tx}:{c.idx}:{c.amt}:{c.height}:{mat}:{tip + 1 - c.height}@{c.addr}"))
+    let sp := joinSorted ((Spec.Chain.utxosOf st.own st.specChain w).map (fun c => showObs (Spec.Chain.obsS st.p tip c)))
     (st, m ++ "\t" ++ sp)
   | ["sbu", w] =>
     if !st.wallets.contains w then (st, "err\terr") else
